@@ -128,6 +128,11 @@ NONCANON = [
     ('Struct("a"/Optional(Const(b"AB")), "b"/GreedyBytes)', [b'ABxy']),
     ('Select(Struct("size"/Byte, Const(b"V1"), "x"/Byte), Struct("size"/Byte, Const(b"V2"), "y"/Int16ub))', [b'\x05V1\x07', b'\x06V2\x00\x09']),
     ('Struct("n"/Int8sb, "d"/Bytes(this.n))', [b'\x02ab', b'\x00', b'\xff']),
+    # tag-length-value (StableDep): payload chosen by the tag and sized by the length; non-minimal VarInts, non-zero padding
+    ('Struct("t"/Byte, "n"/Byte, "v"/Switch(this.t, {1: Bytes(this.n), 2: Array(this.n, Int16ub)}, default=Pass), "f"/IfThenElse(this.t, VarInt, Pass))',
+     [b'\x02\x02\x01\x02\x00\x03\xac\x82\x00', b'\x01\x03abc\x80\x00', b'\x00\x09', b'\x07\x00\x81\x80\x00', b'\x01\x05ab']),
+    ('Array(2, Struct("k"/VarInt, "b"/Switch(this.k, {0: Struct("n"/Int16ul, "d"/Bytes(this.n)), 300: Padded(4, Byte)}, default=Int32sb)))',
+     [b'\x80\x00\x02\x00hi\xac\x02\x07zzz', b'\x05\xff\xff\xff\xf7\x00\x00\x00', b'\xac\x82\x00\x01\x01\x01\x01\x80\x80\x00\x00\x00']),
     ('BitStruct("a"/BitsInteger(3), Padding(5))', [bytes([b]) for b in range(0, 256, 7)]),
     ('Struct("c"/Const(b"\\x01"), "v"/Default(Byte, 7), "n"/Rebuild(Byte, len_(this.d)), "d"/Bytes(this.n))', [b'\x01\x02\x03abc', b'\x01\x00\x00']),
     ('Float32b', [b'\x7f\x80\x00\x00', b'\x00\x00\x00\x01', b'\x80\x00\x00\x00']),
@@ -186,8 +191,11 @@ def run(tier, seed):
              'orders in Select/Optional, signed lengths, special floats; generated constructs of the sequential grammar x (random, all-zero, all-ff, '
              'canonical encodings, 3 mutations each, trailing garbage; thorough: every single-bit flip of short encodings); 15 gallery formats on '
              'their blobs. distinct = (shape, input, outcome)',
-        fragment='RT for integer primitives is proved (props/C02.v restates what C02 needs from them); composites by correspondence + oracle',
-        partial=['C02_canonical as an induction over constructs is not yet proved'],
+        fragment='rebuild_fragment: build after parse is stable for every construct of the closed sequential fragment with named members '
+                 '(Stable.sfrag); dep_rebuild: the same for the dependent fragment (sizes and Switch / IfThenElse choices read from earlier integer '
+                 'fields); integers, VarInt, Flag canonical forms (PrimFacts), props/C02.v',
+        partial=['outside sfrag / dfrag (strings, enums, flags, adapters, bit-level, anonymous members) idempotence is decided by the oracle on '
+                 'canonical and non-canonical inputs'],
         assumptions=['gallery format cap.py is excluded: its timestamp adapter is user code doing float arithmetic'])
 
 
